@@ -553,6 +553,11 @@ class Sym:
                 return base
             if n.func.attr == "dot" and len(n.args) == 1:
                 return base * self.expr(n.args[0], env, func, depth)
+            if n.func.attr in ("mean", "sum", "min", "max", "std", "var", "prod", "cumsum", "nanmean") and not any(isinstance(a, ast.Starred) for a in n.args):
+                # x.mean(...) is np.mean(x, ...)
+                args_ = [base] + [self.expr(a, env, func, depth) for a in n.args]
+                kw_ = {k.arg: self.expr(k.value, env, func, depth) for k in n.keywords if k.arg}
+                return self.np_call(n.func.attr, args_, kw_, n)
             raise Unsupported("method call %s" % norm(n)[:60])
         args = [self.expr(a, env, func, depth) for a in n.args if not isinstance(a, ast.Starred)]
         if any(isinstance(a, ast.Starred) for a in n.args):
